@@ -37,6 +37,10 @@ CHECKS = {
           "Each (table, input) is evaluated on both paths; the two results must be equal and equal to the reference (entry predicates written in Rust, hit-policy table of DMN 8.2.10: U/A/F/P single result, R/O/C lists, aggregates, default output for every policy, contexts keyed by component names, priorities lexicographic over the clauses' own output values).",
           "Trusts the reference in engines/c03.rs. `-` on a null input, not(..) on values of another kind, P/O without output values, aggregation over several clauses and partially defined defaults are left unspecified. Tables beyond 5 rules / 4 inputs and entry kinds outside the alphabet are outside the bound.",
           "DESIGN.md §4 C03"),
+  "C04": ("bounded exhaustive enumeration of requirement graphs, each generated as a DMN model and run through dmntk_model::parse -> ModelEvaluator::new -> evaluate_invocable: every wiring of up to 2 (quick) / 3 (thorough) decisions over 2 inputs and 2 knowledge models (one optionally requiring the other) x every single element taking each boxed expression kind (literal, context, decision table, relation, function definition, invocation) x 2 naming schemes (plain; names sharing words and prefixes); every well-formed decision service (output / encapsulated / input decisions, input data) over every wiring of three decisions x 5 caller styles (by name; from a decision by literal call and by boxed invocation; through a knowledge model by literal call and by boxed invocation) with and without an additional direct requirement; every invocable x every presence/absence assignment of its inputs",
+          "Every element carries signature logic (string concatenations spelling its own name and the consumed value of each requirement), so any mis-wiring changes the string; the expected value comes from a reference evaluation over the graph structure in topological order (not over FEEL text). Each evaluation is repeated with noise entries outside the requirement closure (unrelated element names, parameter / context-entry / column names) and must not change.",
+          "Trusts the reference in engines/c04.rs. One element at a time is non-literal (plus the service family's rotation). Entries named like an element inside the closure are not used as noise (the implementation lets them override; the property leaves this open). Graphs beyond 3-4 decisions, 2 knowledge models, 1 service are outside the bound.",
+          "DESIGN.md §4 C04"),
   "C05": ("crash-isolated bounded exhaustive enumeration in two build profiles (release; release with overflow checks and debug assertions): all token strings up to length 3 (quick) / 4 (thorough) over a 45-token alphabet x 7 parser entry points x 2 parsing scopes; every single-character edit of every expression harvested from the repository's tests; nesting towers to depth 200 of 21 constructs; every built-in x every argument tuple over a 30-value extreme alphabet; iteration forms with boundary ranges",
           "Each case is parsed (and evaluated when it parses) in a worker process that announces the case index in a memory-mapped file before running it under catch_unwind; a worker that panics, dies by a signal or abort, or makes no progress within the stall limit is attributed to that case and restarted behind it. The verdict is: no case of the enumerated space crashes or hangs, in either profile.",
           "Values are not judged. Multi-edit corruptions and token strings beyond the length bound are outside the bound; the stall limit is 8 s (quick) / 30 s (thorough); worker address space is limited to 4 GiB.",
